@@ -272,8 +272,8 @@ def run(rep):
                               f'worklist loop (pop and push on one collection inside a loop) without a visited-set branch '
                               f'dominating the push: nodes of a DAG are re-expanded once per path (nearest: {desc})',
                               ok_detail=f'worklist push dominated by visited-set branch {desc}')
-    rep.floor('recursive call sites analysed', n_sites, 12)
-    rep.floor('arena-following recursive call sites', n_arena, 7)
+    # the stage walker has to follow callees and the type closure nested types: by recursion or by a worklist
+    rep.floor('arena-following recursive call sites + worklist loops', n_arena + n_work, 2)
     rep.info['recursive_call_sites'] = n_sites
     rep.info['arena_following_sites'] = n_arena
     rep.info['worklist_loops'] = n_work
